@@ -136,6 +136,7 @@ type VC struct {
 	allocSeq   map[*ssa.Alloc]int
 	allocCount int
 	nameCount  map[string]int
+	namedObjs  map[string]Val // named struct-typed locals (their storage object)
 }
 
 type loopInfo struct {
@@ -158,7 +159,7 @@ func newVC(w *World, cs *Contracts, ms *ModSets, fn *ssa.Function, spec *FuncSpe
 		notes: map[string]bool{}, unsupp: map[string]bool{}, assumedUse: map[string]bool{},
 		callOrd: map[string]int{}, panicOrd: map[string]int{}, sumDefs: map[string]bool{},
 		closures: map[ssa.Value]*ssa.MakeClosure{}, edgeReach: map[[2]int]string{},
-		compType: map[string]types.Type{}, epochTop: map[int]string{}, siteHits: map[*SiteSpec]int{}, defined: map[string]bool{}, patAlias: map[string]string{}, allocSeq: map[*ssa.Alloc]int{}, nameCount: map[string]int{}}
+		compType: map[string]types.Type{}, epochTop: map[int]string{}, siteHits: map[*SiteSpec]int{}, defined: map[string]bool{}, patAlias: map[string]string{}, allocSeq: map[*ssa.Alloc]int{}, nameCount: map[string]int{}, namedObjs: map[string]Val{}}
 	vc.prelude()
 	return vc
 }
